@@ -26,6 +26,24 @@ fn main() {
         usage();
     }
     let cmd = args[0].as_str();
+    if cmd == "tape-case" {
+        // the replay file of a raw libFuzzer input of the tape targets: tape-case <ID> <raw> <out.json>
+        use vcheck::engine::Case;
+        let id = args.get(1).cloned().unwrap_or_else(|| usage());
+        let data = std::fs::read(args.get(2).cloned().unwrap_or_else(|| usage())).expect("read raw input");
+        let tape: Vec<u16> = data.chunks_exact(2).map(|c| u16::from_le_bytes([c[0], c[1]])).collect();
+        let case = match id.as_str() {
+            "C01" => props::c01::case_from_tape(&tape).to_json(),
+            "C02" => props::c02::case_from_tape(&tape).to_json(),
+            _ => usage(),
+        };
+        let out = serde_json::to_string_pretty(&serde_json::json!({"property": id, "case": case})).expect("json");
+        match args.get(3) {
+            Some(f) => std::fs::write(f, out).expect("write"),
+            None => println!("{out}"),
+        }
+        return;
+    }
     if cmd == "dump-corpus" {
         // seed corpus and dictionary for the libFuzzer target of C03
         let dir = std::path::PathBuf::from(args.get(1).cloned().unwrap_or_else(|| usage()));
